@@ -98,6 +98,12 @@ def values_lists(draw, min_len=1, max_len=10, numbins=None, profiles=None, max_v
         rest = draw(int_lists(max(0, n - 1), 0, 40))
         big = (sum(rest) + draw(st.integers(-3, 10))) // draw(st.sampled_from([1, 1, 2, 3]))
         vals = draw(st.permutations(rest + [max(0, big)]))
+    elif profile == "skewed":
+        # a few big items and many small ones: the class where a cardinality bound binds
+        nbig = draw(st.integers(1, max(1, n // 3)))
+        big = draw(int_lists(nbig, 6, 40))
+        small = draw(st.lists(st.integers(1, 3), min_size=max(0, n - nbig), max_size=max(0, n - nbig)))
+        vals = draw(st.permutations(big + small))
     elif profile == "planted":
         k = numbins if (numbins and numbins >= 2) else draw(st.integers(2, 4))
         vals = draw(planted_values(k, max(max_len, k)))
